@@ -79,7 +79,7 @@ impl Property for C14 {
     }
     fn rule(&self) -> String {
         "generated trees (with links) x base spellings (absolute, relative, trailing `/`, trailing \
-         `/.`, sub-directory, parent) x globs (no prefix, invariant prefix of 1-3 components, \
+         `/.`, sub-directory, parent, and — sequentially — `.` / `./` with the tree as working directory) x globs (no prefix, invariant prefix of 1-3 components, \
          rooted, `..` prefix) or Path::walk x depth bounds x both link behaviours; every yielded \
          entry — and every entry observed by a pass-through filter, i.e. also residue — is checked \
          against the identities of the statement; one evaluation = one entry; non-trivial = entry \
@@ -100,7 +100,7 @@ impl Property for C14 {
         320
     }
     fn required_counters(&self) -> Vec<&'static str> {
-        vec!["entries_checked", "glob_entries", "tree_entries", "residue_entries_observed", "rooted_entries", "prefixed_entries", "dotdot_entries", "noncanonical_base_entries", "depth_bounded_walks", "read_target_walks"]
+        vec!["entries_checked", "glob_entries", "tree_entries", "residue_entries_observed", "rooted_entries", "prefixed_entries", "dotdot_entries", "noncanonical_base_entries", "depth_bounded_walks", "read_target_walks", "walks_from_current_directory"]
     }
     fn decode(&self, t: &mut Tape) -> Case {
         let tree = gen_tree(t, &TreeCfg { links: true, non_utf8: true, ..TreeCfg::default() });
@@ -153,6 +153,40 @@ impl Property for C14 {
         }
         out
     }
+    fn extra(&self, tier: Tier, st: &mut Stats) -> Result<(), (Case, String)> {
+        // walks from the current directory (`.` and `./`): sequential, because the working
+        // directory is process-wide
+        let n = match tier {
+            Tier::Quick => 300u64,
+            Tier::Thorough => 4000,
+        };
+        for k in 0..n {
+            let bytes = fixed_tape(k, self.tape_len());
+            let mut t = Tape::new(&bytes);
+            let mut case = self.decode(&mut t);
+            let was_abs = !matches!(case.base, Base::Sub(_) | Base::Parent);
+            case.base = Base::Cwd(k % 2 == 1);
+            if let Some((shape, _)) = &mut case.glob {
+                // shapes that were generated for a base inside / above the tree are regenerated
+                // for the tree root (which is what `.` names here)
+                if !was_abs {
+                    let b2 = fixed_tape(k + 1_000_000, 64);
+                    let mut t2 = Tape::new(&b2);
+                    *shape = match gen_shape(&mut t2, &case.tree, &Base::Abs) {
+                        Shape::Dots(c) if c.iter().any(|x| x == ".") => Shape::Dots(vec!["..".into()]),
+                        s => s,
+                    };
+                }
+                if let Shape::Rooted = shape {
+                    *shape = Shape::Plain;
+                }
+            }
+            if let Err(m) = self.check(&case, st) {
+                return Err((case, m));
+            }
+        }
+        Ok(())
+    }
     fn check(&self, case: &Case, st: &mut Stats) -> CheckResult {
         NON_UTF8_SEEN.with(|c| c.set(0));
         let r = check_case(case, st);
@@ -176,6 +210,13 @@ fn check_case(case: &Case, st: &mut Stats) -> CheckResult {
         let (base_given, base_abs) = base_paths(&case.base, &s);
         if !base_abs.is_dir() {
             return Ok(());
+        }
+        let _cwd = enter_cwd(&case.base, &s);
+        if matches!(case.base, Base::Cwd(_)) {
+            if _cwd.is_none() {
+                return Ok(());
+            }
+            st.count("walks_from_current_directory");
         }
         let depth = match DepthBehavior::bounded(case.min, case.max) {
             Some(d) => d,
